@@ -6,4 +6,5 @@ import DoviModel.Proofs.HevcRoundTrip
 import DoviModel.Proofs.HevcStage
 import DoviModel.Proofs.HevcOptMap
 import DoviModel.Proofs.HevcMux
+import DoviModel.Proofs.HevcDemuxMux
 /-! helper lemmas about the stream-command model (Model/Hevc.lean), by topic -/
